@@ -8,6 +8,91 @@ from checks import mplib as M
 from checks import c01
 
 
+def job_ipa_prover():
+    """CreateIPAProof executed for real (8 halving rounds over 256-vectors) against the specification's prover"""
+    import z3
+    from gosmt import tlog, gpoint
+    from gosmt.field import FVal
+    from gosmt.group import GVal
+    from gosmt.harness import frame_obligations
+    from gosmt.values import Ptr
+    from checks import c02
+    from checks.mplib import ob, obi, IPA, EL, N
+    h = "VerifC03IPAProver"
+    params = {"numcpu": 16}
+    ctx, ex = D.execute(c02.PROG2, IPA + "." + h, intmode="bv", params=params, setup=c02.setup_ipa, harness_pkgs=[IPA], globals_init=c02.GLOB2, unwind=100000, prune=False)
+    gd, dom = ctx.gd, ctx.fdom
+    obs = []
+    g = lambda n: [v for (l, gg, v) in ctx.notes if l == n][0]
+    obs.append(ob("no error", g("err") is not False))
+    obs.append(ob("8 L points and 8 R points", not (g("nL") == 8 and g("nR") == 8)))
+    tp = ex.ctx.tlogs[0]
+    log = ex.store.get(("TLOG", tp.obj, tp.off), ())
+    lab = c02.lab2
+    a = [z3.Real("S_p" if i == 0 else "S_p_%d" % i) for i in range(N)]
+    b = [z3.Real("B_%d" % i) for i in range(N)]
+    zz = z3.Real("S_z")
+    w = M.chal(log, lab("labelW"))
+    xs = [it[2].t for it in log if it[0] == "challenge" and it[1] == lab("labelX")]
+    if w is None or len(xs) != 8:
+        obs.append(ob("challenges w and x_1..x_8 are drawn", True))
+    else:
+        ip = z3.Sum([a[i] * b[i] for i in range(N)])
+        want = [("new", b"ipa-test"), ("sep", lab("labelDomainSep")), ("point", lab("labelC"), gd.gen("P_C")),
+                ("scalar", lab("labelInputPoint"), FVal(zz, dom)), ("scalar", lab("labelOutputPoint"), FVal(ip, dom)), ("challenge", lab("labelW"), FVal(w, dom))]
+        Gv = [{"G%d" % i: z3.RealVal(1)} for i in range(N)]
+        av, bv = list(a), list(b)
+        Ls, Rs = [], []
+
+        def msm(points, scalars):
+            out = {}
+            for pnt, sc in zip(points, scalars):
+                for k, c in pnt.items():
+                    out[k] = out.get(k, 0) + c * sc
+            return out
+        for k in range(8):
+            m_ = len(av) // 2
+            aL, aR, bL, bR, GL, GR = av[:m_], av[m_:], bv[:m_], bv[m_:], Gv[:m_], Gv[m_:]
+            zL = z3.Sum([x * y for x, y in zip(aR, bL)]) if m_ > 1 else aR[0] * bL[0]
+            zR = z3.Sum([x * y for x, y in zip(aL, bR)]) if m_ > 1 else aL[0] * bR[0]
+            Lk = msm(GL, aR)
+            Lk["Q"] = zL * w
+            Rk = msm(GR, aL)
+            Rk["Q"] = zR * w
+            Ls.append(Lk)
+            Rs.append(Rk)
+            x = xs[k]
+            want += [("point", lab("labelL"), GVal(Lk, gd)), ("point", lab("labelR"), GVal(Rk, gd)), ("challenge", lab("labelX"), FVal(x, dom))]
+            av = [l + x * r for l, r in zip(aL, aR)]
+            bv = [l + (1 / x) * r for l, r in zip(bL, bR)]
+            Gv = [dict(list(l.items()) + [(kk, c * (1 / x)) for kk, c in r.items()]) for l, r in zip(GL, GR)]
+        if len(log) != len(want):
+            obs.append(ob("prover transcript absorbs exactly the specified sequence (%d items, expected %d)" % (len(log), len(want)), True))
+        else:
+            for k_, (x_, y_) in enumerate(zip(log, want)):
+                if x_[0] == "point" and y_[0] == "point" and x_[1] == y_[1] and y_[1] in (lab("labelL"), lab("labelR")):
+                    obs += M.coeff_obligations("round %d: %s absorbed = <a_%s, G_%s> + <a_%s, b_%s> w Q" % ((k_ - 6) // 3, "L" if y_[1] == lab("labelL") else "R", "R" if y_[1] == lab("labelL") else "L", "L" if y_[1] == lab("labelL") else "R", "R" if y_[1] == lab("labelL") else "L", "L" if y_[1] == lab("labelL") else "R"), x_[2], y_[2].coeffs, gd)
+                else:
+                    obs.append(ob("IPA prover transcript item %d is %s under label %r" % (k_, y_[0], y_[1]), b_not_(tlog.item_same(ex, x_, y_))))
+        proof = g("proof")
+        # proof value: (L slice, R slice, A_scalar)
+        Lsl, Rsl, A = proof[0], proof[1], proof[2]
+        for nm, sl, ref in (("L", Lsl, Ls), ("R", Rsl, Rs)):
+            for k in range(min(8, sl.len)):
+                got = ex.load(Ptr(sl.ptr.obj, sl.ptr.off + 3 * k, sl.ptr.sym), gpoint.GFR)
+                obs += M.coeff_obligations("returned proof.%s[%d]" % (nm, k), got, ref[k], gd)
+        obs.append(obi("returned A_scalar is the fully folded a", A.t, av[0]))
+    obs += frame_obligations(ex)
+    recs = D.discharge_all(ctx, extra=obs, timeout_ms=300000)
+    info = M.ctx_info(ctx) if hasattr(M, "ctx_info") else {"functions_encoded": dict(ctx.functions_encoded), "stubs_used": dict(ctx.stubs_used), "exec_s": ctx.exec_s}
+    return {"group": "CreateIPAProof: 8 halving rounds vs specification prover", "recs": recs, "info": info, "harness": h, "params": params, "pkg": IPA}
+
+
+def b_not_(x):
+    from gosmt.values import b_not
+    return b_not(x)
+
+
 def run(tier, seed):
     rep = Report("C03", tier, seed)
     if not c01.load(rep):
@@ -25,7 +110,8 @@ def run(tier, seed):
         pass
     rep.bounds = {"openings": "n in {1,2,3}, indices over %s" % (S,), "NumCPU": cpus, "arrival orders": "fifo, lifo, seeded shuffle (grouping); fifo, lifo (prover)",
                   "runs": {"grouping": len(gj), "prover": len(pj)},
-                  "outside": "the 8 IPA rounds (CreateIPAProof summarised here), serialisation layout (C10), transcript hashing (C14), MSM split choice (C09), byte equality with other implementations on concrete inputs (native replay harness / repository vectors)"}
+                  "IPA prover": "CreateIPAProof at the real size (256 -> 1 in 8 rounds), polynomial/commitment/point symbolic: every L_k, R_k, transcript item and the final scalar vs the specification's prover",
+                  "outside": "serialisation layout (C10), transcript hashing (C14), MSM split choice (C09), byte equality with other implementations on concrete inputs (native replay harness / repository vectors)"}
     rep.assumptions = ["as C01: field/group/transcript summaries; the reference prover is the specification's sequential formulation without grouping"]
 
     def jg(zs, cpu, order):
@@ -35,6 +121,25 @@ def run(tier, seed):
         return c01.job_grouping(zs, cpu, order)
     run_jobs(rep, c01.job_grouping, [j for j in gj if j[2] != "shuffle"], name=lambda a: "grouping %s" % (a,), on_result=on)
     run_jobs(rep, c01.job_prover, pj, name=lambda a: "prover %s" % (a,), on_result=on)
+    # O2: the IPA prover itself
+    try:
+        from checks import c02
+        from gosmt.check import std_replay, _Info
+        c02.BUILD2 = D.Build("c03ipa", [c02.IPA], [c02.IPA + ".VerifC03IPAProver"])
+        c02.PROG2 = c02.BUILD2.load()
+        c02.GLOB2 = c02.BUILD2.dump_globals({c02.IPA: c02.IPALABELS})
+
+        def on2(a, item):
+            inner = std_replay(c02.BUILD2, c02.IPA, c02.IPA + "." + item["harness"], item["params"])
+
+            def cb(rec):
+                r2 = dict(rec)
+                r2["model"] = {k: c01.real_to_mod(v) for k, v in (rec.get("model") or {}).items()}
+                return inner(r2)
+            rep.add(item["group"], item["recs"], _Info(item["info"]), key_prefix=item["harness"], replay=cb)
+        run_jobs(rep, job_ipa_prover, [()], name=lambda a: "IPA prover", on_result=on2)
+    except Exception as e:  # noqa
+        rep.inconclusive_group("IPA prover rounds", str(e)[:300])
     return rep.finish(explanation="CreateMultiProof executed from SSA for every listed worker count and arrival order; output (transcript items, D, E, IPA arguments) identical to the sequential reference prover, hence a function of the inputs only.")
 
 
